@@ -57,7 +57,9 @@ def read_gro(file_name, exclude=('SOL',), ignh=False):
         # We need the first line to figure out the exact format. In particular,
         # the precision and whether it has velocities.
         first_line = next(gro)
-        has_vel = first_line.count('.') == 6
+        # Only the columns after the four 5-wide identifier fields hold numbers: a
+        # point in a residue or atom name says nothing about velocities.
+        has_vel = first_line[20:].count('.') == 6
         first_dot = first_line.find('.', 25)
         second_dot = first_line.find('.', first_dot + 1)
         precision = second_dot - first_dot
